@@ -203,8 +203,12 @@ func (i *interpreter) decide(conds []*smt.Term, kind byte) int {
 	ch := feas[0]
 	if len(feas) > 1 && os.Getenv("GOSYM_DECLOG") != "" && i.curFr != nil {
 		w := i.curFr.where()
-		if k := strings.Index(w, "\n"); k > 0 {
-			w = w[:k]
+		if os.Getenv("GOSYM_DECLOG") != "2" {
+			if k := strings.Index(w, "\n"); k > 0 {
+				w = w[:k]
+			}
+		} else {
+			w = strings.ReplaceAll(firstN(w, 5), "\n", " <- ")
 		}
 		fmt.Fprintf(os.Stderr, "fork(%c,%d) at %s\n", kind, len(feas), w)
 	}
@@ -407,4 +411,12 @@ func (i *interpreter) nondet(name string, k types.BasicKind) value {
 	t := i.ctx.Sym(full, w)
 	i.inputs = append(i.inputs, Input{full, t})
 	return sv{t, k}
+}
+
+func firstN(s string, n int) string {
+	lines := strings.Split(s, "\n")
+	if len(lines) > n {
+		lines = lines[:n]
+	}
+	return strings.Join(lines, "\n")
 }
